@@ -24,6 +24,12 @@ pub fn seed_state(id: u8) -> Memfs {
             let _ = m.write_all("/a/g", b"gg");
             let _ = m.write_all("/b", b"y");
         },
+        3 => {
+            let _ = m.mkdir_p("/a/b");
+            let _ = m.write_all("/a/f", b"x");
+            let _ = m.mkdir_p("/d");
+            let _ = m.set_cwd("/a");
+        },
         _ => {
             let _ = m.mkdir_p("/a/b");
             let _ = m.write_all("/a/b/h", b"h");
@@ -77,6 +83,14 @@ pub fn alphabet(full: bool) -> Vec<Op> {
             Op::Entries(s("/")),
             Op::Mkfile(s("f")), // relative to a cwd another thread may change
             Op::Cwd,
+            Op::SetCwd(s("b")), // relative: resolution and switch must be one step
+            Op::SetCwd(s("/d")),
+            Op::SetCwd(s("..")),
+            Op::Mkfile(s("/a")), // turns a removed directory into a file under a listing
+            Op::WriteAll(s("b/new"), b"R".to_vec()),
+            Op::Remove(s("/d")), // empty directory: emptiness check and removal must be one step
+            Op::Mkfile(s("/d/x")),
+            Op::MkdirP(s("/d/y/z")),
         ]);
     }
     v
@@ -362,7 +376,7 @@ fn stress(c: &Ctx, threads: usize, rounds: usize) {
 }
 
 pub fn run(c: &Ctx) {
-    c.set_rule("controlled scheduler on hook H1: real threads park before every MemfsGuard acquisition and exactly one is released at a time, so an execution is a function of (seed state, program, schedule). For every program ALL interleavings at critical-section granularity are enumerated depth-first (cap per program noted). Programs: quick = all 2-thread programs with (1,1) calls over a 15-form core alphabet and a seeded quarter of the (2,1) programs, from a populated seed state; thorough = all (1,1),(2,1) over the 32-form alphabet, seeded samples of (2,2),(1,1,1),(2,1,1), three seed states, plus uncontrolled 8-thread stress rounds. Oracle per execution: no nested guard acquisition (would dead-lock), no panic, every call returns, C03 invariants at quiescence, every successful append_all payload exactly once, and linearizability: per-call results (Ok values; Err-ness) and the final tree equal those of SOME sequential order of the same calls on a fresh instance that respects program order and real-time precedence. Non-trivial = execution in which calls of different threads overlap in time and one mutates; distinct by (seed, program, schedule).");
+    c.set_rule("controlled scheduler on hook H1: real threads park before every MemfsGuard acquisition and exactly one is released at a time, so an execution is a function of (seed state, program, schedule). For every program ALL interleavings at critical-section granularity are enumerated depth-first (cap per program noted). Programs: quick = all 2-thread programs with (1,1) calls over a 15-form core alphabet and a seeded quarter of the (2,1) programs from a populated seed state, and all (1,1) programs over the full 40-form alphabet from two more seed states (nested dirs + link; cwd below root); thorough = all (1,1),(2,1) over the 40-form alphabet, seeded samples of (2,2),(1,1,1),(2,1,1), four seed states, plus uncontrolled 8-thread stress rounds. Oracle per execution: no nested guard acquisition (would dead-lock), no panic, every call returns, C03 invariants at quiescence, every successful append_all payload exactly once, and linearizability: per-call results (Ok values; Err-ness) and the final tree equal those of SOME sequential order of the same calls on a fresh instance that respects program order and real-time precedence. Non-trivial = execution in which calls of different threads overlap in time and one mutates; distinct by (seed, program, schedule).");
     c.assume("all shared state of Memfs is behind the one RwLock (safe Rust): interleavings at guard granularity are complete; sequential specification = Memfs itself run single-threaded (functional correctness is C01's job)");
     install_hook();
     let quick = c.tier == Tier::Quick;
@@ -379,19 +393,18 @@ pub fn run(c: &Ctx) {
                 jobs.push((1, p));
             }
         }
-        for (i, p) in programs(&full, &[1, 1]).into_iter().enumerate() {
-            if sampled(c.seed, 42, i as u64, 1, 3) {
-                jobs.push((2, p));
-            }
+        for p in programs(&full, &[1, 1]) {
+            jobs.push((2, p.clone()));
+            jobs.push((3, p));
         }
     } else {
-        for seed in [0u8, 1, 2] {
+        for seed in [0u8, 1, 2, 3] {
             for p in programs(&full, &[1, 1]) {
                 jobs.push((seed, p));
             }
         }
         for (i, p) in programs(&full, &[2, 1]).into_iter().enumerate() {
-            jobs.push(((i % 2) as u8 + 1, p));
+            jobs.push(((i % 3) as u8 + 1, p));
         }
         for (i, p) in programs(&core, &[2, 2]).into_iter().enumerate() {
             if sampled(c.seed, 43, i as u64, 1, 10) {
